@@ -320,7 +320,7 @@ func c14SubCheck(run *Run, sc *c14SubCase) {
 				gotCmp, wantCmp = c14MaskComputed(parsed.Data), c14MaskComputed(want)
 			}
 			if !fedJSONEqual(gotCmp, wantCmp) {
-				run.Violate(Violation{Kind: "oracle", Clause: "update_equals_reference_under_denial:" + mode, Input: in2, Impl: m, Model: want,
+				run.Violate(Violation{Kind: "oracle", Clause: "update_equals_reference_under_denial:" + mode, Input: in2, Impl: map[string]any{"update": m, "requests": log}, Model: want,
 					Detail: fmt.Sprintf("update %d: %s; reference with the denied coordinates %s; reference without denial %s", k, truncate(m, 900), truncate(jsonStr(want), 700), truncate(jsonStr(clean), 500))}, "")
 				break
 			}
